@@ -28,7 +28,7 @@ CONFIG = dict(
     min_nontrivial={"quick": 30, "thorough": 500},
     nshards={"quick": 4, "thorough": 8},
     timeout={"quick": 900, "thorough": 5400},
-    required_counters=("non_default_protocol_cases", "injections", "members_compared", "loads_compared"),
+    required_counters=("refused_first_attempts", "non_default_protocol_cases", "injections", "members_compared", "loads_compared"),
 )
 
 
@@ -47,7 +47,11 @@ def payload_texts(ctx):
 RAW_PAYLOADS = ["0", "1", "123", "None", "pass", "'cpu'", "'storage'", "''", "'weight'", "'0'", "...", "0x1f", "-7"]
 
 
-def run_case(ctx, mods, label, obj, text, overwrite, raw=False, proto=None):
+REFUSED_PAYLOADS = [["vp_refused = 1", None], None, ("vp_refused = 2", object()), ["vp_refused = 3", ["nested", {1, 2}]],
+                    {"vp_refused = 4": {5}}, b"\xff\xfe" * 3 + b"\x00" if False else ["vp_refused = 5", b"\xff", {"k": None}]]
+
+
+def run_case(ctx, mods, label, obj, text, overwrite, raw=False, proto=None, refused_first=None):
     torch, f, PyTorchModelWrapper = mods
     import vp_sink
     agg = ctx.agg
@@ -63,7 +67,7 @@ def run_case(ctx, mods, label, obj, text, overwrite, raw=False, proto=None):
     with open(src, "rb") as fh:
         src_bytes = fh.read()
     payload = text if raw else f"__import__('vp_sink').hit('C16', {text!r})"
-    key = h(hashlib.sha256(src_bytes).hexdigest() + "|" + payload + "|" + str(overwrite))
+    key = h(hashlib.sha256(src_bytes).hexdigest() + "|" + payload + "|" + str(overwrite) + ("|refused%s" % refused_first if refused_first is not None else ""))
     ntens = len(torchfiles.storage_partition(torch, obj))
     if not agg.case(key, ntens > 0, {"model": label, "payload": payload[:80], "overwrite": overwrite, "tensors": ntens}):
         return
@@ -79,7 +83,21 @@ def run_case(ctx, mods, label, obj, text, overwrite, raw=False, proto=None):
                 import warnings
                 with warnings.catch_warnings():
                     warnings.simplefilter("ignore")
-                    PyTorchModelWrapper(src).inject_payload(payload, out, injection="insertion", overwrite=overwrite)
+                    wrapper = PyTorchModelWrapper(src)
+                    if refused_first is not None:
+                        # history on one wrapper: a call that is refused, then the valid one
+                        try:
+                            wrapper.inject_payload(REFUSED_PAYLOADS[refused_first], out, injection="insertion", overwrite=False)
+                            agg.count("refused_first_was_accepted")
+                            refused_ok = False
+                        except Exception:
+                            agg.count("refused_first_attempts")
+                            refused_ok = True
+                        if os.path.exists(out):
+                            os.remove(out)
+                        if not refused_ok:
+                            return
+                    wrapper.inject_payload(payload, out, injection="insertion", overwrite=overwrite)
         except Exception as e:
             agg.violation(f"injection-raises:{type(e).__name__}", f"inject_payload raised on a torch.save zip file: {str(e)[:150]}", w)
             return
@@ -203,6 +221,12 @@ def run_shard(ctx):
                 continue
             if i % ctx.nshards == ctx.shard:
                 run_case(ctx, mods, label, obj, text, bool(i % 2), raw=True)
+    # histories on one wrapper object: a refused inject_payload call precedes the valid one
+    for label, obj in list(torchfiles.models(torch, asm.rng_for(ctx.seed, "c16ref"), 0))[:8]:
+        for ri in range(len(REFUSED_PAYLOADS)):
+            i += 1
+            if i % ctx.nshards == ctx.shard:
+                run_case(ctx, mods, label + "+refused-first", obj, texts[i % len(texts)], bool(i % 2), refused_first=ri)
     # other pickle protocols of torch.save, incl. model pickles large enough to be split over several FRAMEs
     big = [("big_pickle_few_tensors", {"w": torch.ones(2, 2), "meta": {("key_%05d" % k) * 4: k for k in range(4000)}}),
            ("many_small_tensors", {"t%d" % k: torch.full((1,), float(k)) for k in range({"quick": 1300, "thorough": 2600}[ctx.tier])})]
